@@ -325,6 +325,8 @@ class SiteAnalysis:
                 o.leaf_ty = getattr(leaf, "ty", None)
                 self.outcomes.append(o)
             for path, key, base in ev.probes:
+                # positions are named after the data, not after the loop variable that walks it
+                path = tuple("#item" if isinstance(c, str) and c.startswith("#") else c for c in path)
                 ok = declared_at.setdefault((path, key), set())
                 if base[0] == "cls" and key in self.shapes.decl(base[1]):
                     ok.add(base[1])
